@@ -307,28 +307,31 @@ def sweeps_and_guard(index, ctx):
     ctx.require(cnt == {1}, "R2", f"{G.short}: the VJP callable is applied exactly once per block", "one application on every path",
                 f"the VJP callable is applied {sorted(cnt)} times depending on the path", G.loc())
     blocks_param = gp[0] if gp else None
+    from ..guards import cfg_guards, implies, oriented
+
+    def classify(t):
+        """S = 'this block has exactly one row' (blocks are non-empty: R1)."""
+        o = oriented(t, lambda e: rows_of_block(G.node, e, blocks_param))
+        if o is None:
+            return None
+        _, op, other = o
+        if not (isinstance(other, ast.Constant) and isinstance(other.value, int) and not isinstance(other.value, bool)):
+            return None
+        c = other.value
+        table = {(ast.Eq, 1): True, (ast.NotEq, 1): False, (ast.Gt, 1): False, (ast.GtE, 2): False, (ast.Lt, 2): True, (ast.LtE, 1): True}
+        if (op, c) in table:
+            return ("S", table[(op, c)])
+        return None
+
     for v in via_vmap:
-        guards = cfg.guards_of(v)
-        good = False
-        desc = []
-        for t, lbl in guards:
-            if t.kind != "test" or not isinstance(t.ast, ast.If):
-                continue
-            test = t.ast.test
-            desc.append(f"{norm_text(test)}:{lbl}")
-            if isinstance(test, ast.Compare) and len(test.ops) == 1 and isinstance(test.comparators[0], ast.Constant) and test.comparators[0].value == 1:
-                rows = rows_of_block(G.node, test.left, blocks_param)
-                op = test.ops[0]
-                if rows and ((isinstance(op, ast.Eq) and lbl == "False") or (isinstance(op, (ast.NotEq, ast.Gt)) and lbl == "True")):
-                    good = True
+        gs = cfg_guards(cfg, v)
+        good = implies(gs, classify, "S", False)
+        desc = [f"{norm_text(t)}:{lbl}" for t, lbl in gs]
         ctx.require(good, "R3", f"{G.short}: vmap only for blocks of more than one row", "vmap call on the negative edge of `rows == 1`",
                     f"the vmap call is guarded by {desc or 'nothing'} — not by a test that THIS block has exactly one row (shape[0] of a cotangent block): a single row, or chunk size 1, "
                     "may still be differentiated through vmap", G.loc(v.ast))
     for d in direct:
-        guards = cfg.guards_of(d)
-        good = any(t.kind == "test" and isinstance(t.ast, ast.If) and isinstance(t.ast.test, ast.Compare) and isinstance(t.ast.test.comparators[0], ast.Constant)
-                   and t.ast.test.comparators[0].value == 1 and rows_of_block(G.node, t.ast.test.left, blocks_param)
-                   and ((isinstance(t.ast.test.ops[0], ast.Eq) and lbl == "True") or (isinstance(t.ast.test.ops[0], (ast.NotEq, ast.Gt)) and lbl == "False")) for t, lbl in guards)
+        good = implies(cfg_guards(cfg, d), classify, "S", True)
         ctx.require(good or not via_vmap, "R3", f"{G.short}: single-row blocks are differentiated directly", "direct call on the positive edge of `rows == 1`",
                     "the direct (vmap-free) application is not the branch taken when the block has one row", G.loc(d.ast))
     ctx.floor("vmap call sites", len(via_vmap), 1)
@@ -344,4 +347,8 @@ def rows_of_block(fn_node, expr, blocks_param) -> bool:
             return False
         expr = defs[0].value
     t = norm_text(expr)
-    return blocks_param is not None and t.startswith(blocks_param + "[") and (t.endswith(".shape[0]") or t.endswith(".size(0)"))
+    if blocks_param is None:
+        return False
+    if t.startswith("len(" + blocks_param + "[") and t.endswith(")"):
+        return True
+    return t.startswith(blocks_param + "[") and (t.endswith(".shape[0]") or t.endswith(".size(0)"))
